@@ -22,6 +22,14 @@ pub struct VirtIO9p<H: Hal, T: Transport> {
     mount_tag: String,
 }
 
+impl<H: Hal, T: Transport> Drop for VirtIO9p<H, T> {
+    fn drop(&mut self) {
+        // Clear any pointers pointing to DMA regions, so the device doesn't try to access them
+        // after they have been freed.
+        self.transport.queue_unset(QUEUE);
+    }
+}
+
 impl<H: Hal, T: Transport> VirtIO9p<H, T> {
     /// Create a new VirtIO 9p driver.
     pub fn new(mut transport: T) -> Result<Self> {
